@@ -376,7 +376,14 @@ def step6492 (a : Acc) (caName : String) (flip : Bool) (obs : Json) : Acc :=
     (if replied && (jstr (jpath obs ["reply", "sender"]) != caName || jstr (jpath obs ["reply", "recip"]) != sender) then ["reply_addressed"] else []) ++
     (if !(chgOutside chg [s!"cas:{caName}", s!"objects:{caName}.json", "log:cas", "log:pubd_objects",
           s!"status:{caName}/children-{sender}.json", s!"pub:{caName}", s!"status:{caName}/repos-main.json"]).isEmpty
-      then ["scope_of_accepted"] else [])
+      then ["scope_of_accepted"] else []) ++
+    -- the records of the other children of this CA, and all other CAs' registrations, are untouched
+    (let st' := jget obs "st"
+     if jisNull st' then [] else
+     let others (x : Json) := (jfields (jpath x ["reg", caName])).filter (·.1 != sender)
+     let rest (x : Json) := (jfields (jget x "reg")).filter (·.1 != caName)
+     if others st != others st' || rest st != rest st' || jget st "ids" != jget st' "ids"
+     then ["scope_of_accepted"] else [])
   let a := if orc.isEmpty then a else { a with fails := a.fails ++ ["ORACLE " ++ " ".intercalate orc] }
   -- model vs implementation
   let tagBase := if flip then "flip6492" else "send6492"
